@@ -42,6 +42,27 @@ func ruleC13R1(r *Run) {
 	if fn == nil {
 		return
 	}
+	// MakeFuzz returns a fuzz target that hands its own *testing.T and input, and the given property, to checkFuzz
+	if mf := r.MustFn("MakeFuzz"); mf != nil {
+		okTarget := false
+		for _, ret := range returnsOf(mf) {
+			mc, ok := p.resolve(p.res(ret, 0)).(*ssa.MakeClosure)
+			if !ok {
+				continue
+			}
+			lit := mc.Fn.(*ssa.Function)
+			for _, cs := range p.callsTo(lit, "checkFuzz") {
+				if cs.isDefer() || len(lit.Params) != 2 {
+					continue
+				}
+				byp := escapesFromEntry(lit, func(in ssa.Instruction) bool { return in == cs.Instr }, false)
+				if p.resolve(cs.Arg(0)) == ssa.Value(lit.Params[0]) && p.resolve(cs.Arg(2)) == ssa.Value(lit.Params[1]) && p.expr(cs.Arg(1)) == "$prop" && byp == nil {
+					okTarget = true
+				}
+			}
+		}
+		r.Check("MakeFuzz#target", mf.Pos(), okTarget, "the fuzz target runs checkFuzz(t, prop, input) on every path", "the function returned by MakeFuzz does not run checkFuzz on its own *testing.T, the given property and its input on every path: fuzz inputs are not checked at all")
+	}
 	input := paramNamed(fn, "input")
 	if input == nil {
 		r.Undecided("anchor:checkFuzz.input", fn.Pos(), "anchor unresolved: parameter input of checkFuzz")
@@ -280,6 +301,7 @@ func specC14() *propertySpec {
 			{"C14-R4", "safe-closure: the callees of the safe methods touch no other T field (not draws) and call only allow-listed external APIs", ruleC14R4},
 			{"C14-R5", "atomic-updates: append to cleanups, pop in cleanup and the ctx re-check/store in Context each happen inside one write-locked region; Context returns only the published context (or a cancelled one while cleaning)", func(r *Run) { ruleC14R5(r); ruleC10R5(r) }},
 			{"C14-R6", "no-callback-under-lock: no dynamic call of a user-supplied function and no call re-acquiring T.mu while T.mu is held", ruleC14R6},
+			{"C14-R7", "lock-balance: every function that acquires T.mu releases it on every return path (explicitly, or by a deferred unlock of the same mode): a lock left held blocks every later Log/Failed/Cleanup call", ruleC14R7},
 		},
 	}
 }
@@ -746,4 +768,66 @@ func ruleContextStoreRecheck(r *Run) {
 		}
 		// every return value is the stored/loaded ctx or a cancelled fresh one
 	}
+}
+
+
+// ruleC14R7: acquire/release pairing of T.mu on all exits.
+func ruleC14R7(r *Run) {
+	p := r.P
+	n := 0
+	for _, fn := range p.FuncList {
+		acquires := false
+		for _, b := range p.body(fn) {
+			for _, in := range b.Instrs {
+				if op := p.lockOpOf(in); op != nil && (op.kind == "Lock" || op.kind == "RLock") && strings.HasSuffix(op.path, ".mu") {
+					acquires = true
+				}
+			}
+		}
+		if !acquires {
+			continue
+		}
+		n++
+		// deferred releases, by mode
+		deferred := map[string]bool{}
+		for _, b := range fn.Blocks {
+			for _, in := range b.Instrs {
+				d, ok := in.(*ssa.Defer)
+				if !ok {
+					continue
+				}
+				key := p.calleeKey(d.Common())
+				for _, path := range p.deferredUnlocks(d) {
+					mode := "W"
+					if strings.HasSuffix(key, ".RUnlock") {
+						mode = "R"
+					}
+					if mc, ok := d.Common().Value.(*ssa.MakeClosure); ok {
+						mode = "W"
+						if lit, ok := mc.Fn.(*ssa.Function); ok && len(p.callsTo(lit, "(*sync.RWMutex).RUnlock")) > 0 {
+							mode = "R"
+						}
+					}
+					deferred[path+"/"+mode] = true
+				}
+			}
+		}
+		ls := p.lockSets(fn)
+		name := p.fnName(fn)
+		okAll := true
+		detail := ""
+		for _, ret := range returnsOf(fn) {
+			for path, mode := range ls[ret] {
+				if !strings.HasSuffix(path, ".mu") {
+					continue
+				}
+				if !deferred[path+"/"+string(mode)] {
+					okAll = false
+					detail = "returns at " + p.pos(ret.Pos()) + " with " + path + " held (" + string(mode) + ") and no deferred release of that mode"
+				}
+			}
+		}
+		r.Check(name+"#lock-balance", fn.Pos(), okAll, "every return releases the locks it took", name+" "+detail+": the next operation on this T blocks forever")
+	}
+	r.Floor("functions acquiring a T mutex", n, 6)
 }
